@@ -174,9 +174,9 @@ TxStep(m, ev) ==
              IF r.fail # "" THEN Bad(m, r.fail)
              ELSE Good([r.m EXCEPT !.pend = [kind |-> "reply", bytes |-> RRReply(pf.handle, pf.ctx, r.reply), tell |-> [k |-> "none"]]])
     ELSE \* connected data
-        IF ~HasConn(m, pf.cid) \/ pf.cid \notin m.dConns THEN Bad(m, "C10:connected-before-open")
+        IF ~HasConn(m, pf.cid) \/ pf.cid \notin m.dConns THEN Bad(m, "C10:connected-before-open+C11:cid")
         ELSE LET c == ConnOf(m, pf.cid)  seq == U16(pf.item, 1) IN
-        IF c.sess # pf.handle THEN Bad(m, "C10:connected-before-open")
+        IF c.sess # pf.handle THEN Bad(m, "C10:connected-before-open+C11:cid")
         ELSE IF Len(pf.item) > c.size THEN Bad(m, "C04:request-too-large")
         ELSE IF seq = c.lastSeq THEN Bad(m, "C17:repeat")
         ELSE LET q == MRParse(SubSeq(pf.item, 3, Len(pf.item))) IN
